@@ -154,3 +154,20 @@ PROPS["C19"] = dict(
 
 import c01
 PROPS["C01"] = dict(run=c01.run, replay=c01.replay)
+
+PROPS["C15"] = dict(
+    level="model_checking",
+    stages=[dict(name="enum", module="CacheLoaders", cmd="cachehist",
+                 cfg={"quick": "MC_C15_mid.cfg", "thorough": "MC_C15_mid.cfg"}, timeout={"quick": 300, "thorough": 900}),
+            dict(name="walks", module="CacheLoaders", cmd="cachehist", cfg={"quick": "MC_C15_sim.cfg", "thorough": "MC_C15_sim.cfg"},
+                 simulate={"quick": 3000, "thorough": 60000}, depth=16, workers=1, timeout={"quick": 300, "thorough": 1500}),
+            dict(name="random", cfg={}, c2s=dict(gen="cachehist", cmd="cachehist", n={"quick": 300, "thorough": 4000}, len=80,
+                                                 trace=dict(module="Trace_C15", cfg="Trace_C15.cfg")))],
+    nontrivial=lambda r: True,
+    rule="every history of 4 operations over render / register / loader put, delete / cache, auto-reload, development-mode toggles "
+         "on 4 names and 2 loaders (one timestamp-aware) that ends in a render, plus TLC random walks of 14 operations; after EVERY "
+         "operation the served version (or not-found), each loader's Load-call counters and the cached names are compared with the model",
+    assumptions=["CacheLoaders.tla Render(n) is the rule set; TLC checks the property's six sentences P1..P6 as action properties",
+                 "a content change always raises the timestamp; deletion only in the plain loader; a name whose current source was "
+                 "registered is rendered only while the cache is on (what a registered string means with the cache off is not determined)"],
+)
